@@ -257,7 +257,9 @@ def rule_block_conditions(ctx: Ctx) -> None:
             if not okr:
                 bad.append((inner, f"{where}: the inner sweep runs over `{short(it)}` instead of range({J} + 1, {nq})"))
         # the tested entry and its truth table
-        subs = {norm(x): x for x in ast.walk(I.test) if isinstance(x, ast.Subscript) and isinstance(x.slice, ast.Tuple) and len(x.slice.elts) == 2}
+        from ..core import inline_single_return_calls
+        test = inline_single_return_calls(fn, I.test, m.find)      # a local `pauli_at(row, col)` helper reads like the raw bit tests
+        subs = {norm(x): x for x in ast.walk(test) if isinstance(x, ast.Subscript) and isinstance(x.slice, ast.Tuple) and len(x.slice.elts) == 2}
         want_idx = f"[{names[ri]}, {names[ci]}]"
         xs = [k_ for k_ in subs if k_ == f"{tab}.x_matrix{want_idx}"]
         zs = [k_ for k_ in subs if k_ == f"{tab}.z_matrix{want_idx}"]
@@ -266,6 +268,26 @@ def rule_block_conditions(ctx: Ctx) -> None:
             bad.append((I.test, f"{where}: the test reads `{others[0]}`; the entry to look at is row {names[ri]}, column {names[ci]}"))
             continue
 
+        def val(e, env):
+            if norm(e) in env:
+                return env[norm(e)]
+            if isinstance(e, ast.Constant):
+                return e.value
+            if isinstance(e, ast.BinOp) and isinstance(e.op, (ast.Add, ast.Sub, ast.Mult, ast.BitXor, ast.BitAnd, ast.BitOr, ast.Mod)):
+                l_, r_ = val(e.left, env), val(e.right, env)
+                if l_ is None or r_ is None:
+                    return None
+                return {ast.Add: lambda: l_ + r_, ast.Sub: lambda: l_ - r_, ast.Mult: lambda: l_ * r_, ast.BitXor: lambda: l_ ^ r_,
+                        ast.BitAnd: lambda: l_ & r_, ast.BitOr: lambda: l_ | r_, ast.Mod: lambda: l_ % r_}[type(e.op)]()
+            if isinstance(e, ast.Subscript) and isinstance(e.value, (ast.Constant, ast.List, ast.Tuple)):
+                i_ = val(e.slice, env)
+                seq = e.value.value if isinstance(e.value, ast.Constant) else [val(x, env) for x in e.value.elts]
+                if isinstance(i_, int) and isinstance(seq, (str, list, tuple)) and -len(seq) <= i_ < len(seq):
+                    return seq[i_]
+            if isinstance(e, ast.Call) and call_name(e) == "int" and len(e.args) == 1:
+                return val(e.args[0], env)
+            return None
+
         def ev(e, env):
             if isinstance(e, ast.BoolOp):
                 vs = [ev(v, env) for v in e.values]
@@ -273,20 +295,21 @@ def rule_block_conditions(ctx: Ctx) -> None:
             if isinstance(e, ast.UnaryOp) and isinstance(e.op, ast.Not):
                 return not ev(e.operand, env)
             if isinstance(e, ast.Compare) and len(e.ops) == 1:
-                l_, r_ = e.left, e.comparators[0]
-                lv = env[norm(l_)] if norm(l_) in env else (l_.value if isinstance(l_, ast.Constant) else None)
-                rv = env[norm(r_)] if norm(r_) in env else (r_.value if isinstance(r_, ast.Constant) else None)
+                lv, rv = val(e.left, env), val(e.comparators[0], env)
                 if lv is None or rv is None:
                     raise AnalysisError(f"inverse_circuit: cannot unfold `{short(e)}`")
+                if isinstance(e.ops[0], (ast.In, ast.NotIn)):
+                    return (lv in rv) == isinstance(e.ops[0], ast.In)
                 return {ast.Eq: lv == rv, ast.NotEq: lv != rv, ast.Gt: lv > rv, ast.Lt: lv < rv, ast.GtE: lv >= rv, ast.LtE: lv <= rv}[type(e.ops[0])]
-            if norm(e) in env:
-                return bool(env[norm(e)])
+            v_ = val(e, env)
+            if v_ is not None:
+                return bool(v_)
             raise AnalysisError(f"inverse_circuit: cannot unfold `{short(e)}`")
         wrong = []
         for x_ in (0, 1):
             for z_ in (0, 1):
                 env = {f"{tab}.x_matrix{want_idx}": x_, f"{tab}.z_matrix{want_idx}": z_}
-                if bool(ev(I.test, env)) != bool(pred(x_, z_)):
+                if bool(ev(test, env)) != bool(pred(x_, z_)):
                     wrong.append({(0, 0): "I", (1, 0): "X", (0, 1): "Z", (1, 1): "Y"}[(x_, z_)])
         if wrong:
             bad.append((I.test, f"{where}: the test `{short(I.test, 70)}` answers wrongly when the entry at row {names[ri]}, column {names[ci]} is {', '.join(wrong)}"))
@@ -585,7 +608,17 @@ def _swap_blocks(src: str) -> str:
     return src[:a] + src[b:c] + src[a:b] + src[c:]
 
 
+def _edit_pauli_at(src: str) -> str:
+    """the CNOT block's raw bit test becomes a call of a local helper that names the Pauli, and only X is accepted (Y is missed)"""
+    a = "    # CNOT block\n    for j in range(n_qubits):\n        for k in range(j + 1, n_qubits):\n            if tableau.x_matrix[j, k] == 1:\n"
+    if src.count(a) != 1:
+        raise LookupError("CNOT block")
+    return src.replace(a, "    def pauli_at(row, col):\n        return \"IZXY\"[2 * tableau.x_matrix[row, col] + tableau.z_matrix[row, col]]\n\n"
+                          "    # CNOT block\n    for j in range(n_qubits):\n        for k in range(j + 1, n_qubits):\n            if pauli_at(j, k) == \"X\":\n")
+
+
 KNOCKOUTS = [
+    Knockout("cnot-block-helper-misses-y", STABF, _edit_pauli_at, "inverse.block-conditions", "CNOT block"),
     Knockout("run-circuit-cnot-arguments-swapped", TR, sub_once("            tableau = cnot_gate(tableau, ops[1], ops[2])", "            tableau = cnot_gate(tableau, ops[2], ops[1])"), "reverse.table", "arguments"),
     Knockout("cz-block-condition-or", STABF, sub_once("            if tableau.x_matrix[j, k] == 0 and tableau.z_matrix[j, k] == 1:\n                circuit_list.append((\"CZ\", j, k))", "            if tableau.x_matrix[j, k] == 0 or tableau.z_matrix[j, k] == 1:\n                circuit_list.append((\"CZ\", j, k))"), "inverse.block-conditions", "CZ block"),
     Knockout("cnot-block-inner-range", STABF, sub_nth("        for k in range(j + 1, n_qubits):\n            if tableau.x_matrix[j, k] == 1:", "        for k in range(j, n_qubits):\n            if tableau.x_matrix[j, k] == 1:", 0), "inverse.block-conditions", "CNOT block"),
